@@ -2730,7 +2730,7 @@ class StateEngine(object):
             retry_timeout = context["State"].get("RetryTimeout", 0)
             self.event_dispatcher.set_timeout(asl_state_Parallel_delegate, retry_timeout)
 
-        def get_start_index(context):
+        def get_start_index(context, entering=True):
             """
             Boilerplate to retrieve the start index of the Map ItemProcessor or
             Iterator. This is used in the implementation of MaxConcurrency. The
@@ -2744,7 +2744,17 @@ class StateEngine(object):
             start = 0
             context_state = context["State"]
             if "Branch" in context_state and len(context_state["Branch"]):
-                iterator_range = context_state["Branch"][-1].get("Range", "0:0")
+                branch_info = context_state["Branch"][-1]
+                """
+                When a Map state is being entered only the record left by its
+                own previous block (an ID and a Range, see
+                asl_state_collect_results) holds its start index. A record
+                with an Index is that of an enclosing Map or Parallel state
+                whose branch this (nested) Map state is running in.
+                """
+                if entering and "Index" in branch_info:
+                    return 0
+                iterator_range = branch_info.get("Range", "0:0")
                 start = int(iterator_range.split(":")[0])
 
             return start
@@ -3152,7 +3162,7 @@ class StateEngine(object):
             in order to process the next block of MaxConcurrency.
             """
             max_concurrency = state.get("MaxConcurrency", 0)
-            start = get_start_index(context)
+            start = get_start_index(context, entering=False)
             if max_concurrency:
                 end = min(start + max_concurrency, len(result))
             else:
